@@ -60,14 +60,24 @@ func c11() {
 		if i%3 == 2 {
 			pol = longSpec
 		}
-		cc := &vlib.ChildCase{Policy: pol, Flags: pl.flags, NNP: pl.nnp, Unprivileged: pl.unpriv, Probes: []vlib.Probe{probe}, NNPCase: &vlib.NNPCase{Mode: pl.mode, GoMaxProcs: []int{0, 1, 2, 4}[i%4], CallerLocked: i%5 == 4, PresetOnMain: i%7 == 5}}
+		if i%7 == 5 && (i/7)%3 == 2 {
+			pl.flags &^= 1 // a third thread carries a divergent filter there: a thread-sync load would rightly be refused
+		}
+		cc := &vlib.ChildCase{Policy: pol, Flags: pl.flags, NNP: pl.nnp, Unprivileged: pl.unpriv, Probes: []vlib.Probe{probe}, NNPCase: &vlib.NNPCase{Mode: pl.mode, GoMaxProcs: []int{0, 1, 2, 4}[i%4], CallerLocked: i%5 == 4, PresetOnMain: i%7 == 5, Prior: []string{"", "declined-einval", "declined-divergent"}[(i/7)%3]}}
+		if i%7 != 5 {
+			cc.NNPCase.Prior = ""
+		}
 		cc.Env = vlib.RuntimeKnobsGC[(i/3)%len(vlib.RuntimeKnobsGC)]
-		if i%6 == 1 {
+		if i%6 == 1 && pl.mode != "busy" { // CPU-bound goroutines on few Ps would only starve the collecting goroutine
 			cc.GCSpray = 1 + (i/6)%3
 			run.Count("children_with_gc_and_allocation_spray_before_the_seccomp_call", 1)
 		}
 		desc := fmt.Sprintf("case %d: mode=%s unprivileged=%v NoNewPrivs=%v flags=%#x strace=%v", i, pl.mode, pl.unpriv, pl.nnp, pl.flags, pl.strace)
+		t0 := time.Now()
 		res, err := vlib.RunChild(bin, "nnp", cc, pl.strace, 60*time.Second)
+		if d := time.Since(t0); d > 5*time.Second {
+			run.Set(fmt.Sprintf("slow_child_case_%d", i), fmt.Sprintf("%.1fs %s prior=%q gomaxprocs=%d locked=%v", d.Seconds(), desc, cc.NNPCase.Prior, cc.NNPCase.GoMaxProcs, cc.NNPCase.CallerLocked))
+		}
 		if err != nil || res.TimedOut || res.Line("done") == nil {
 			run.Count("watchdog_or_crash", 1)
 			run.SoftInconclusive(fmt.Sprintf("nnp child did not finish (%s): %v %s", desc, err, tail(res.Stderr, 300)))
@@ -129,13 +139,22 @@ func c11() {
 		preset := i%7 == 5
 		if preset {
 			run.Count("children_with_nnp_preset_on_main_thread", 1)
-			// the main thread's own prctl is not the library's: drop it from the strace view
-			mainTid := int(jsonU64(l["main_tid"]))
+			run.Count("prior:"+cc.NNPCase.Prior, 1)
+			if cc.NNPCase.Prior != "" && fmt.Sprint(l["preset_err"]) == "" {
+				run.Count("prior_load_not_declined_not_judged", 1)
+				return
+			}
+			// what the main thread (and the thread with the divergent filter) did before is not the judged load: only the calls
+			// of the thread that runs the judged load count
+			loadTid := int(jsonU64(l["tid_before"]))
 			prctlSeen, prctlBeforeSeccomp = false, false
 			seccompSeen = false
 			for _, sc := range res.Strace {
+				if sc.Tid != loadTid {
+					continue
+				}
 				switch {
-				case sc.Name == "prctl" && len(sc.Args) > 1 && sc.Args[0] == 38 && sc.Tid != mainTid:
+				case sc.Name == "prctl" && len(sc.Args) > 1 && sc.Args[0] == 38:
 					if !prctlSeen {
 						prctlTid = sc.Tid
 					}
@@ -227,6 +246,9 @@ func c11() {
 				}
 				for tid, v := range after {
 					m, _ := v.(map[string]any)
+					if preset && tid == fmt.Sprint(jsonU64(l["other_worker_tid"])) {
+						continue // the harness gave this thread a filter of its own (prior step "declined-divergent")
+					}
 					if fmt.Sprint(m["Seccomp"]) != "0" || (fmt.Sprint(m["Seccomp_filters"]) != "0" && fmt.Sprint(m["Seccomp_filters"]) != "") {
 						run.Violation("failed-unprivileged-load-installed-filter", fmt.Sprintf("%s: LoadFilter returned %q but task %s has Seccomp=%v filters=%v", desc, errText, tid, m["Seccomp"], m["Seccomp_filters"]), replay)
 						return
